@@ -251,6 +251,18 @@ inline std::string scrypt_encode_string(uint32_t N_log2, uint32_t r, uint32_t p,
     if (salt32_raw.size() != 32) return std::string();
     return scrypt_encode_string_from_saltchars(N_log2, r, p, scrypt_b64_bytes(salt32_raw), pw);
 }
+// A syntactically well-formed $7$ string with arbitrary parameter digits and an arbitrary (not computed) hash field: for the
+// functions that only decode (needs_rehash).  N_log2 is one digit (0..63), r and p are 30-bit values (five digits each).
+inline std::string scrypt_encode_string_raw(uint32_t N_log2, uint32_t r, uint32_t p, const Bytes &salt32_raw, const Bytes &hash32_raw) {
+    std::string s = "$7$";
+    s.push_back(SCRYPT_ITOA64[N_log2 & 63]);
+    s += scrypt_b64_uint(r & 0x3fffffffu, 30);
+    s += scrypt_b64_uint(p & 0x3fffffffu, 30);
+    s += scrypt_b64_bytes(salt32_raw);
+    s += "$";
+    s += scrypt_b64_bytes(hash32_raw);
+    return s;
+}
 // Same, starting from (opslimit, memlimit) like the public API.
 inline std::string pwhash_scrypt_str(const Bytes &pw, const Bytes &salt32_raw, uint64_t opslimit, size_t memlimit) {
     uint32_t N_log2, r, p;
